@@ -201,6 +201,12 @@ func (e *LinEval) Key(v ssa.Value) string {
 			return e.Key(x.X) + "[" + e.Of(x.Index).String() + "]"
 		case *ssa.Slice:
 			return x.Name()
+		case *ssa.Phi:
+			if r := ResultTemp(x); r != nil {
+				v = r
+				continue
+			}
+			return x.Name()
 		default:
 			return v.Name()
 		}
